@@ -17,8 +17,8 @@ def check(run):
     records = []
     complete_bounds = {}
 
-    def go(name, params, seconds):
-        st = run.explore(name, (SPEC[0], SPEC[1], params), seconds)
+    def go(name, params, seconds, required=True):
+        st = run.explore(name, (SPEC[0], SPEC[1], params), seconds, required=required)
         records.extend(st['records'])
         return st
 
@@ -29,8 +29,9 @@ def check(run):
     if twin_viol == 0:
         raise Inconclusive('vacuity twin found nothing: the obligations are not being exercised')
     for L in range(1, pl['root_L'] + 1):
-        go(f'parse T1 from root, L={L}, all 256 byte values', {'device': 'T1', 'L': L, 'completions': L <= pl['compl_L']}, pl['per'])
-        complete_bounds['T1/root'] = L
+        st = go(f'parse T1 from root, L={L}, all 256 byte values', {'device': 'T1', 'L': L, 'completions': L <= pl['compl_L']}, pl['per'], required=(L <= 6))
+        if st['complete']:
+            complete_bounds['T1/root'] = L
     # deeper into the grammar with a concrete prefix: later arguments, later units
     for pre in ('C 1,', 'C 1 , ', 'C "a",', 'A:B;', 'C #11a,', 'U? '):
         for L in range(1, (5 if run.tier == 'thorough' else 4) + 1):
